@@ -125,8 +125,8 @@ def run_faults(base, case, seed, chunk, rng, max_points):
                 t1 = int(time.time())
                 r = fsx.run_with_fault(c18.merge_fn(base, case, cset), base, idx, mode, chunk=chunk)
                 snap = c18.snap_model(base)
-                # do_link's cleanup only happens when the faulted call is one that would succeed
-                eio_flag = mode == "eio" and run0.trace[idx].ok
+                # only a failed rename has cleanup code behind it (do_link unlinks its '#new')
+                eio_flag = mode == "eio" and run0.trace[idx].kind == "rename"
                 points.append({"idx": idx, "k": kmodel, "mode": mode, "eio": eio_flag, "snap": snap, "t0": min(t0, t1),
                                "exc": type(r.exc).__name__ if r.exc is not None else None,
                                "call": repr(run0.trace[idx]), "kind": run0.trace[idx].kind})
@@ -150,7 +150,7 @@ def main(chk: Check):
     chk.check_fingerprint(ANCHORS)
     chk.note("partial: a completed call is assumed durable (no page-cache loss / reordering of a real power cut); "
              "kernel semantics as in C18")
-    ncases = int(os.environ.get("VERIF_C19_CASES", 0)) or chk.n(14, 60)   # env: self-test budget override
+    ncases = int(os.environ.get("VERIF_C19_CASES", 0)) or chk.n(12, 60)   # env: self-test budget override
     max_points = chk.n(24, 60)
     work = chk.scratch / "c19"
     work.mkdir()
